@@ -222,12 +222,16 @@ def qLoop (R : Rules) (rec : Game → Int → Int → Env → Int × Env) (g : G
       if score >= beta then (beta, e)
       else qLoop R rec g beta ms (if score > ta then score else ta) e
 
+/-- entering a quiescence node: hook, poll, count -/
+def qEnter (cfg : Cfg) (g : Game) (alpha beta : Int) (e : Env) : Env :=
+  let e := e.onNode cfg 2 g 0 alpha beta
+  let e := e.maybePoll cfg
+  { e with nodes := e.nodes + 1 }
+
 def quiescence (R : Rules) (cfg : Cfg) : Nat → Game → Int → Int → Env → Int × Env
-  | 0, _, alpha, _, e => (alpha, e)      -- out of fuel: unreachable (`Lemmas/Fuel`)
+  | 0, _, alpha, _, e => (alpha, e)      -- out of fuel: unreachable (ply cap, `Lemmas/QValue`)
   | fuel + 1, g, alpha, beta, e =>
-    let e := e.onNode cfg 2 g 0 alpha beta
-    let e := e.maybePoll cfg
-    let e := { e with nodes := e.nodes + 1 }
+    let e := qEnter cfg g alpha beta e
     let ev := R.evaluate g
     if e.ply > Gen.MAX_PLY - 1 || g.halfMoves == 100 then (ev, e) else
     if ev >= beta && ev > alpha then (beta, e) else
